@@ -117,6 +117,8 @@ CASES["C01"] = [
     ("hoist-if: yield index 0", "mutant", DEDUP, "new_in_state = yield_op.operands[old_in_state.index]", "new_in_state = yield_op.operands[0]", ["C01.hoist-if"]),
     ("hoist-if: same-block-as-if guard deleted (F-19)", "mutant", DEDUP,
      "        if op.parent_block() is not op.in_state.owner.parent_block():\n            return\n", "", ["C01.hoist-if"]),
+    ("hoist-if: value availability guard deleted (F-21)", "mutant", DEDUP,
+     "            if (\n                isinstance(val, OpResult)\n                and val.op.parent_block() is block\n                and block.get_operation_index(val.op) > if_index\n            ):\n                return\n", "            pass\n", ["C01.hoist-if"]),
     ("pull: effects guard deleted (F-18)", "mutant", DEDUP, "        if has_accfg_effects(loop_op):\n            return\n", "", ["C01.pull"]),
     ("all_setup_ops_in_region: top level only", "mutant", TRACE, "    for op in region.walk():\n        if isinstance(op, accfg.SetupOp):", "    for op in region.ops:\n        if isinstance(op, accfg.SetupOp):", ["C01.all-setups"]),
     ("all_setup_ops_in_region: accelerator filter dropped", "mutant", TRACE, "            if op.accelerator.data != accel:\n                continue\n", "", ["C01.all-setups"]),
